@@ -375,6 +375,21 @@ func run(repo string, it item) (string, error) {
 			clauses = append(clauses, "["+strings.Join(vals, ", ")+"]")
 		}
 		return fmt.Sprintf("def %s : List (List String) :=\n  [%s]\n", it.Name, strings.Join(clauses, ",\n   ")), nil
+	case "args":
+		// printed first arguments of every call to one of the callees in Names, in source order
+		var vals []string
+		ast.Inspect(body, func(n ast.Node) bool {
+			if call, ok := n.(*ast.CallExpr); ok && len(call.Args) > 0 {
+				callee := exprString(call.Fun)
+				for _, want := range it.Names {
+					if callee == want {
+						vals = append(vals, leanString(exprString(call.Args[0])))
+					}
+				}
+			}
+			return true
+		})
+		return fmt.Sprintf("def %s : List String :=\n  [%s]\n", it.Name, strings.Join(vals, ", ")), nil
 	case "strings":
 		var vals []string
 		ast.Inspect(body, func(n ast.Node) bool {
